@@ -92,10 +92,13 @@ def run(ctx):
         if i % 3 == 0:
             c["tterm"] = [40, 100, 400][i % 9 // 3]
         c["period"] = [1, 1000, 100000][i % 3]
-        c["t0"] = 1 if i % 2 else 0          # events (and predicates first true) at timestamp 0
+        v2 = c["t0"] & 2                      # V2-only GenModel mode (zero-delay forwards of identical content), 1 in 6 from gen_configs
+        if i % 8 == 6:
+            v2, c["types"] = 2, max(c["types"], 3)   # ... and a few more: ties between IDENTICAL events at different LPs in the heap
+        c["t0"] = (1 if i % 2 else 0) | v2    # events (and predicates first true) at timestamp 0
         if i % 4 == 1:
             # every LP satisfies its predicate at its very first event, which for some LPs is at timestamp 0
-            c["thr"], c["spread"], c["t0"], c["lps"] = 1 + (i // 4) % 2, 0, 1, max(c["lps"], 3)
+            c["thr"], c["spread"], c["t0"], c["lps"] = 1 + (i // 4) % 2, 0, 1 | v2, max(c["lps"], 3)
             c.pop("tterm", None)
     tot = {"runs": 0, "dispatches": 0, "ties": 0}
     divs = []
